@@ -475,9 +475,25 @@ def check_footer(ctx, ht, rule, select=lambda f: True):
                            'n_ilines' in U(x) and 'n_xlines' in U(x) for e2 in chain for x in ast.walk(e2))
                 facts = fm.facts_at(call) or frozenset()
                 structured = ('T', 'self.structured') in facts
-                if padded or grid or structured:
+                # a reshape to the grid assumes full grid arrays, it does not establish them: on the compacted arrays of an
+                # irregular source it raises - after the output file has been opened and its header and data written
+                if not structured:
+                    for facts_ in fm.paths_at(call) or []:
+                        if ('T', 'self.structured') in facts_:
+                            structured = True
+                        else:
+                            structured = False
+                            break
+                if padded or structured:
                     ctx.ok(rule, f, 'arrays: ' + label, 'footer arrays are the full grid arrays (%s)' % (
-                        'padding requested' if padded else 'reshaped to the grid' if grid else 'structured source only'))
+                        'padding requested' if padded else 'structured source only'))
+                elif grid:
+                    ctx.fail(rule, f, enclosing_stmt(loads[0]) if loads else enclosing_stmt(call),
+                             'the footer arrays come from read_variant_headers() without include_padding=True and are reshaped to '
+                             'the (n_ilines, n_xlines) grid: for an irregular source these are the mask-compacted arrays (one '
+                             'entry per trace), the reshape raises after the output file has been opened and its header and '
+                             'data written - the source is neither refused nor cropped, and a partial output is left behind',
+                             line=(loads[0].lineno if loads else call.lineno), key_extra='masked')
                 else:
                     ctx.fail(rule, f, enclosing_stmt(loads[0]) if loads else enclosing_stmt(call),
                              'the footer arrays come from read_variant_headers() without include_padding=True: for an irregular '
